@@ -170,7 +170,7 @@ def check(run):
                     pass
                 atoms = [a for a, pol in q.conjuncts(n['cond'], False)]
                 if any(nulltest(fn, a) is True for a in atoms):
-                    exits = [x for x in walk(n['then']) if x['k'] in ('throw', 'return')]
+                    exits = q.leaves_function(fn, n['then'])
                     run.check(bool(exits), 'R5', 'null-edge-exits', '%s: if (%s)' % (fn.norm, q.render(fn, n['cond'])[:60]), fn.loc(n), 'the nothing-found branch neither throws nor returns', 'nothing-found branch throws/returns')
     if nuse < 10:
         run.broke('only %d uses of search results found (about 20 confirmed by hand)' % nuse)
